@@ -36,9 +36,9 @@ import (
 // c40Req is one monitor request. Kind names the endpoint (see c40Routes).
 type c40Req struct {
 	Kind   string `json:"kind"`
-	Comp   string `json:"comp,omitempty"`   // component name for tick/component/field
-	Field  string `json:"field,omitempty"`  // dotted field path for field
-	Query  string `json:"query,omitempty"`  // raw query string (buffers, field paging)
+	Comp   string `json:"comp,omitempty"`    // component name for tick/component/field
+	Field  string `json:"field,omitempty"`   // dotted field path for field
+	Query  string `json:"query,omitempty"`   // raw query string (buffers, field paging)
 	GapUS  int    `json:"gap_us"`            // sleep before the request (perturbation plan)
 	SpinUS int    `json:"spin_us,omitempty"` // busy-wait before the request, after the sleep (finer than the sleep granularity)
 	Yields int    `json:"yields,omitempty"`  // runtime.Gosched() calls before the request
@@ -203,14 +203,14 @@ type c40Result struct {
 	TickWhileBusy int `json:"tick_while_busy,omitempty"`
 	SlowTicks     int `json:"slow_ticks,omitempty"` // TickLater calls on Slow in all
 	// probe mode: what the engine wrapper saw
-	NowCalls        int `json:"now_calls,omitempty"`         // CurrentTime() calls by Monitor.now
-	NowDuringEvent  int `json:"now_during_event,omitempty"`  // … made while an event was being handled
-	PauseCalls      int `json:"pause_calls,omitempty"`       // Pause() calls by Monitor.pauseEngine
-	PauseMidEvent   int `json:"pause_mid_event,omitempty"`   // … that arrived while an event was being handled
-	PauseMidSlow    int `json:"pause_mid_slow,omitempty"`    // … while Slow's handler was busy-working
-	InspectMidSlow  int `json:"inspect_mid_slow,omitempty"`  // Pause() calls by inspection handlers that arrived while Slow's handler was busy-working
-	PauseWaitMaxUS  int `json:"pause_wait_max_us,omitempty"` // longest Pause() call (perturbation statistics only)
-	TickBusyAtomic  int `json:"tick_busy_atomic,omitempty"`  // probe mode: TickLater saw the (synchronising) busy flag set
+	NowCalls       int `json:"now_calls,omitempty"`         // CurrentTime() calls by Monitor.now
+	NowDuringEvent int `json:"now_during_event,omitempty"`  // … made while an event was being handled
+	PauseCalls     int `json:"pause_calls,omitempty"`       // Pause() calls by Monitor.pauseEngine
+	PauseMidEvent  int `json:"pause_mid_event,omitempty"`   // … that arrived while an event was being handled
+	PauseMidSlow   int `json:"pause_mid_slow,omitempty"`    // … while Slow's handler was busy-working
+	InspectMidSlow int `json:"inspect_mid_slow,omitempty"`  // Pause() calls by inspection handlers that arrived while Slow's handler was busy-working
+	PauseWaitMaxUS int `json:"pause_wait_max_us,omitempty"` // longest Pause() call (perturbation statistics only)
+	TickBusyAtomic int `json:"tick_busy_atomic,omitempty"`  // probe mode: TickLater saw the (synchronising) busy flag set
 }
 
 // ---- the assembly --------------------------------------------------------------
@@ -240,13 +240,13 @@ type c40Sim struct {
 // the event counter and the hashes are plain fields owned by the engine
 // goroutine and read only after Run returned.
 type c40Recorder struct {
-	events  uint64
-	all     uint64 // every dispatched event, the monitor's pokes of Slow included (probe phases only)
-	evHash  uint64
-	slow    *c40Slow // nil without the harness component
+	events uint64
+	all    uint64 // every dispatched event, the monitor's pokes of Slow included (probe phases only)
+	evHash uint64
+	slow   *c40Slow // nil without the harness component
 	// first (may be nil) is called once, on the engine goroutine, when the
 	// first event has been handled: the run loop is in progress from here on.
-	first func()
+	first   func()
 	engine  timing.Engine
 	probe   *c40Probe // probe mode only: publishes the engine phase (this *does* synchronise; probe mode does not rely on the race detector)
 	rspHash uint64
